@@ -1,8 +1,487 @@
 package vc
 
-// VRType: a reflect.Type value known to the executor.
+// Model of package reflect for values whose Go type is statically known to the
+// executor ("concrete mode"): reflect.Value is (static type, location or value),
+// reflect.Type is the go/types type. The model is part of the trusted base.
+
+import (
+	"go/types"
+	"reflect"
+
+	"golang.org/x/tools/go/ssa"
+)
+
+// VRType: a reflect.Type value.
 type VRType struct {
-	T interface{} // types.Type
+	T types.Type
 }
 
-func (ex *Exec) rtypeEq(a, b *VRType) *Term { return False }
+// VReflect: a reflect.Value.
+type VReflect struct {
+	T      types.Type // nil: the zero (invalid) Value
+	Ptr    *VPtr      // addressable: the location
+	Val    Value      // otherwise: the value
+	CanSet bool
+	// method value obtained by MethodByName
+	Method string
+	Recv   *VReflect
+}
+
+func (ex *Exec) rtypeEq(a, b *VRType) *Term { return BoolLit(types.Identical(a.T, b.T)) }
+
+func (ex *Exec) rvGet(st *State, v *VReflect, instr ssa.Instruction) Value {
+	if v.Ptr != nil {
+		return ex.load(st, v.Ptr, instr)
+	}
+	return v.Val
+}
+
+func kindOf(t types.Type) int64 {
+	switch u := t.Underlying().(type) {
+	case *types.Basic:
+		switch u.Kind() {
+		case types.Bool:
+			return int64(reflect.Bool)
+		case types.Int:
+			return int64(reflect.Int)
+		case types.Int8:
+			return int64(reflect.Int8)
+		case types.Int16:
+			return int64(reflect.Int16)
+		case types.Int32:
+			return int64(reflect.Int32)
+		case types.Int64:
+			return int64(reflect.Int64)
+		case types.Uint:
+			return int64(reflect.Uint)
+		case types.Uint8:
+			return int64(reflect.Uint8)
+		case types.Uint16:
+			return int64(reflect.Uint16)
+		case types.Uint32:
+			return int64(reflect.Uint32)
+		case types.Uint64:
+			return int64(reflect.Uint64)
+		case types.Uintptr:
+			return int64(reflect.Uintptr)
+		case types.String:
+			return int64(reflect.String)
+		case types.Float32:
+			return int64(reflect.Float32)
+		case types.Float64:
+			return int64(reflect.Float64)
+		}
+	case *types.Struct:
+		return int64(reflect.Struct)
+	case *types.Pointer:
+		return int64(reflect.Ptr)
+	case *types.Slice:
+		return int64(reflect.Slice)
+	case *types.Map:
+		return int64(reflect.Map)
+	case *types.Interface:
+		return int64(reflect.Interface)
+	case *types.Array:
+		return int64(reflect.Array)
+	case *types.Signature:
+		return int64(reflect.Func)
+	case *types.Chan:
+		return int64(reflect.Chan)
+	}
+	return int64(reflect.Invalid)
+}
+
+func (ex *Exec) rv(v Value) *VReflect {
+	r, ok := v.(*VReflect)
+	if !ok {
+		ex.unsupported("reflect.Value that is not statically known (%T)", v)
+	}
+	return r
+}
+
+func (ex *Exec) reflectValueOf(st *State, iv *VIface, instr ssa.Instruction) *VReflect {
+	iv, alt := ex.resolveIface(st, iv, instr)
+	if alt == nil {
+		if iv.Tag.IsIntLit() && iv.Tag.Int.Sign() == 0 {
+			return &VReflect{}
+		}
+		ex.unsupported("reflect.ValueOf of an interface value whose dynamic type is not statically known")
+	}
+	return &VReflect{T: alt.T, Val: alt.Val}
+}
+
+func (ex *Exec) structFieldValue(st *State, t types.Type, i int) Value {
+	sft := ex.lookupNamed("reflect.StructField")
+	stt := t.Underlying().(*types.Struct)
+	f := stt.Field(i)
+	names, ftypes, _, _ := ex.structLayout(sft)
+	vs := &VStruct{T: sft, Names: names}
+	for k, n := range names {
+		switch n {
+		case "Name":
+			vs.Fields = append(vs.Fields, ex.strLit(f.Name()))
+		case "PkgPath":
+			pp := ""
+			if !f.Exported() && f.Pkg() != nil {
+				pp = f.Pkg().Path()
+			}
+			vs.Fields = append(vs.Fields, ex.strLit(pp))
+		case "Type":
+			vs.Fields = append(vs.Fields, &VRType{T: f.Type()})
+		case "Tag":
+			vs.Fields = append(vs.Fields, ex.strLit(stt.Tag(i)))
+		case "Anonymous":
+			vs.Fields = append(vs.Fields, BoolLit(f.Embedded()))
+		default:
+			vs.Fields = append(vs.Fields, ex.zeroValue(ftypes[k]))
+		}
+	}
+	return vs
+}
+
+func init() {
+	reg("reflect.ValueOf", func(ex *Exec, st *State, instr ssa.Instruction, args []Value) Value {
+		return ex.reflectValueOf(st, args[0].(*VIface), instr)
+	})
+	reg("reflect.TypeOf", func(ex *Exec, st *State, instr ssa.Instruction, args []Value) Value {
+		iv, alt := ex.resolveIface(st, args[0].(*VIface), instr)
+		_ = iv
+		if alt == nil {
+			ex.unsupported("reflect.TypeOf of a symbolic interface")
+		}
+		return &VRType{T: alt.T}
+	})
+	reg("(reflect.Value).Kind", func(ex *Exec, st *State, instr ssa.Instruction, args []Value) Value {
+		v := ex.rv(args[0])
+		if v.T == nil {
+			return IntLit(0)
+		}
+		return IntLit(kindOf(v.T))
+	})
+	reg("(reflect.Value).Type", func(ex *Exec, st *State, instr ssa.Instruction, args []Value) Value {
+		v := ex.rv(args[0])
+		if v.T == nil {
+			ex.oblige(st, "panic", "panic@reflect.Type-of-zero-Value", False, instr.Pos(), "reflect: call of Type on zero Value")
+			ex.unsupported("Type of zero reflect.Value")
+		}
+		return &VRType{T: v.T}
+	})
+	reg("(reflect.Value).Elem", func(ex *Exec, st *State, instr ssa.Instruction, args []Value) Value {
+		v := ex.rv(args[0])
+		switch u := v.T.Underlying().(type) {
+		case *types.Pointer:
+			p := ex.rvGet(st, v, instr).(*VPtr)
+			if p.Nil.IsTrue() {
+				return &VReflect{}
+			}
+			if !p.Nil.IsFalse() {
+				if ex.decide(st, p.Nil) {
+					return &VReflect{}
+				}
+			}
+			np := *p
+			np.Nil = False
+			return &VReflect{T: u.Elem(), Ptr: &np, CanSet: true}
+		case *types.Interface:
+			iv := ex.rvGet(st, v, instr).(*VIface)
+			return ex.reflectValueOf(st, iv, instr)
+		}
+		ex.oblige(st, "panic", "panic@reflect.Elem", False, instr.Pos(), "reflect: call of Elem on a non-pointer Value")
+		ex.unsupported("reflect.Value.Elem on %s", v.T)
+		return nil
+	})
+	reg("reflect.Indirect", func(ex *Exec, st *State, instr ssa.Instruction, args []Value) Value {
+		v := ex.rv(args[0])
+		if v.T == nil {
+			return v
+		}
+		if _, ok := v.T.Underlying().(*types.Pointer); ok {
+			return libModels["(reflect.Value).Elem"](ex, st, instr, args)
+		}
+		return v
+	})
+	reg("(reflect.Value).NumField", func(ex *Exec, st *State, instr ssa.Instruction, args []Value) Value {
+		v := ex.rv(args[0])
+		s, ok := v.T.Underlying().(*types.Struct)
+		if !ok {
+			ex.oblige(st, "panic", "panic@reflect.NumField", False, instr.Pos(), "reflect: NumField of non-struct")
+			ex.unsupported("NumField of %s", v.T)
+		}
+		return IntLit(int64(s.NumFields()))
+	})
+	reg("(reflect.Value).Field", func(ex *Exec, st *State, instr ssa.Instruction, args []Value) Value {
+		v := ex.rv(args[0])
+		i, ok := args[1].(*Term).Int64()
+		s, isStruct := v.T.Underlying().(*types.Struct)
+		if !ok || !isStruct {
+			ex.unsupported("reflect.Value.Field with symbolic index or non-struct")
+		}
+		if i < 0 || int(i) >= s.NumFields() {
+			ex.oblige(st, "panic", "panic@reflect.Field", False, instr.Pos(), "reflect: Field index out of range")
+			ex.unsupported("Field index out of range")
+		}
+		_, _, model, _ := ex.structLayout(v.T)
+		if model != nil {
+			ex.unsupported("reflect field access into library struct %s", v.T)
+		}
+		f := s.Field(int(i))
+		r := &VReflect{T: f.Type()}
+		if v.Ptr != nil {
+			r.Ptr = &VPtr{Nil: False, Obj: v.Ptr.Obj, Path: append(append([]int(nil), v.Ptr.Path...), int(i)), T: f.Type()}
+			if v.Ptr.Obj == nil {
+				ex.unsupported("reflect field of a struct stored in a slice")
+			}
+			r.CanSet = v.CanSet && f.Exported()
+		} else {
+			r.Val = v.Val.(*VStruct).Fields[i]
+		}
+		return r
+	})
+	reg("(reflect.Value).Interface", func(ex *Exec, st *State, instr ssa.Instruction, args []Value) Value {
+		v := ex.rv(args[0])
+		if v.T == nil {
+			ex.oblige(st, "panic", "panic@reflect.Interface", False, instr.Pos(), "reflect: Interface of zero Value")
+			ex.unsupported("Interface of zero Value")
+		}
+		val := ex.rvGet(st, v, instr)
+		if _, ok := v.T.Underlying().(*types.Interface); ok {
+			return val
+		}
+		return ex.concreteIface(v.T, val)
+	})
+	reg("(reflect.Value).Addr", func(ex *Exec, st *State, instr ssa.Instruction, args []Value) Value {
+		v := ex.rv(args[0])
+		if v.Ptr == nil {
+			ex.oblige(st, "panic", "panic@reflect.Addr", False, instr.Pos(), "reflect.Value.Addr of unaddressable value")
+			ex.unsupported("Addr of unaddressable value")
+		}
+		return &VReflect{T: types.NewPointer(v.T), Val: v.Ptr}
+	})
+	reg("(reflect.Value).CanSet", func(ex *Exec, st *State, instr ssa.Instruction, args []Value) Value {
+		return BoolLit(ex.rv(args[0]).CanSet)
+	})
+	reg("(reflect.Value).IsNil", func(ex *Exec, st *State, instr ssa.Instruction, args []Value) Value {
+		v := ex.rv(args[0])
+		val := ex.rvGet(st, v, instr)
+		switch x := val.(type) {
+		case *VPtr:
+			return x.Nil
+		case *VIface:
+			return Eq(x.Tag, IntLit(0))
+		case *VSlice:
+			return Eq(x.Ref, IntLit(0))
+		case *VMap:
+			return Eq(x.Ref, IntLit(0))
+		case *VFunc:
+			return x.Nil
+		}
+		ex.oblige(st, "panic", "panic@reflect.IsNil", False, instr.Pos(), "reflect: IsNil of a non-nillable kind")
+		ex.unsupported("IsNil of %s", v.T)
+		return nil
+	})
+	reg("(reflect.Value).Uint", func(ex *Exec, st *State, instr ssa.Instruction, args []Value) Value {
+		v := ex.rv(args[0])
+		ii, ok := intTypeInfo(v.T)
+		if !ok || ii.signed {
+			ex.oblige(st, "panic", "panic@reflect.Uint", False, instr.Pos(), "reflect: Uint of a non-unsigned kind")
+			ex.unsupported("Uint of %s", v.T)
+		}
+		return ex.rvGet(st, v, instr)
+	})
+	reg("(reflect.Value).Bool", func(ex *Exec, st *State, instr ssa.Instruction, args []Value) Value {
+		v := ex.rv(args[0])
+		if !isBool(v.T) {
+			ex.oblige(st, "panic", "panic@reflect.Bool", False, instr.Pos(), "reflect: Bool of a non-bool kind")
+			ex.unsupported("Bool of %s", v.T)
+		}
+		return ex.rvGet(st, v, instr)
+	})
+	reg("(reflect.Value).Bytes", func(ex *Exec, st *State, instr ssa.Instruction, args []Value) Value {
+		v := ex.rv(args[0])
+		if s, ok := v.T.Underlying().(*types.Slice); ok {
+			if ii, ok := intTypeInfo(s.Elem()); ok && ii.bits == 8 {
+				sl := *(ex.rvGet(st, v, instr).(*VSlice))
+				sl.Elem = types.Typ[types.Uint8]
+				return &sl
+			}
+		}
+		ex.oblige(st, "panic", "panic@reflect.Bytes", False, instr.Pos(), "reflect: Bytes of a non-byte-slice")
+		ex.unsupported("Bytes of %s", v.T)
+		return nil
+	})
+	setCheck := func(ex *Exec, st *State, instr ssa.Instruction, v *VReflect, what string) {
+		if !v.CanSet || v.Ptr == nil {
+			ex.oblige(st, "panic", "panic@reflect."+what, False, instr.Pos(), "reflect: "+what+" using unaddressable/unexported value")
+			ex.unsupported(what + " on a value that cannot be set")
+		}
+	}
+	reg("(reflect.Value).Set", func(ex *Exec, st *State, instr ssa.Instruction, args []Value) Value {
+		v, x := ex.rv(args[0]), ex.rv(args[1])
+		setCheck(ex, st, instr, v, "Set")
+		if x.T == nil {
+			ex.oblige(st, "panic", "panic@reflect.Set-zero", False, instr.Pos(), "reflect: Set with zero Value")
+			ex.unsupported("Set with zero Value")
+		}
+		if !types.AssignableTo(x.T, v.T) {
+			ex.oblige(st, "panic", "panic@reflect.Set-type", False, instr.Pos(), "reflect.Set: value of type "+x.T.String()+" is not assignable to type "+v.T.String())
+			ex.unsupported("reflect.Set type mismatch %s <- %s", v.T, x.T)
+		}
+		val := ex.rvGet(st, x, instr)
+		if _, ok := v.T.Underlying().(*types.Interface); ok {
+			if _, isI := x.T.Underlying().(*types.Interface); !isI {
+				val = ex.concreteIface(x.T, val)
+			}
+		}
+		ex.store(st, v.Ptr, ex.retype(val, v.T), instr)
+		return &VTuple{}
+	})
+	reg("(reflect.Value).SetUint", func(ex *Exec, st *State, instr ssa.Instruction, args []Value) Value {
+		v := ex.rv(args[0])
+		setCheck(ex, st, instr, v, "SetUint")
+		ii, ok := intTypeInfo(v.T)
+		if !ok || ii.signed {
+			ex.oblige(st, "panic", "panic@reflect.SetUint", False, instr.Pos(), "reflect: SetUint of a non-unsigned kind")
+			ex.unsupported("SetUint of %s", v.T)
+		}
+		ex.store(st, v.Ptr, wrapInt(v.T, args[1].(*Term)), instr)
+		return &VTuple{}
+	})
+	reg("(reflect.Value).SetBool", func(ex *Exec, st *State, instr ssa.Instruction, args []Value) Value {
+		v := ex.rv(args[0])
+		setCheck(ex, st, instr, v, "SetBool")
+		if !isBool(v.T) {
+			ex.oblige(st, "panic", "panic@reflect.SetBool", False, instr.Pos(), "reflect: SetBool of a non-bool kind")
+			ex.unsupported("SetBool of %s", v.T)
+		}
+		ex.store(st, v.Ptr, args[1], instr)
+		return &VTuple{}
+	})
+	reg("(reflect.Value).SetBytes", func(ex *Exec, st *State, instr ssa.Instruction, args []Value) Value {
+		v := ex.rv(args[0])
+		setCheck(ex, st, instr, v, "SetBytes")
+		s, ok := v.T.Underlying().(*types.Slice)
+		if ok {
+			if ii, ok2 := intTypeInfo(s.Elem()); !ok2 || ii.bits != 8 {
+				ok = false
+			}
+		}
+		if !ok {
+			ex.oblige(st, "panic", "panic@reflect.SetBytes", False, instr.Pos(), "reflect: SetBytes of a non-byte-slice")
+			ex.unsupported("SetBytes of %s", v.T)
+		}
+		sl := *(args[1].(*VSlice))
+		sl.Elem = s.Elem()
+		ex.store(st, v.Ptr, &sl, instr)
+		return &VTuple{}
+	})
+	reg("reflect.New", func(ex *Exec, st *State, instr ssa.Instruction, args []Value) Value {
+		rt, ok := args[0].(*VRType)
+		if !ok {
+			ex.unsupported("reflect.New of a symbolic type")
+		}
+		obj := ex.newObject("reflect.New", rt.T, true)
+		st.mem[obj] = ex.zeroValue(rt.T)
+		return &VReflect{T: types.NewPointer(rt.T), Val: &VPtr{Nil: False, Obj: obj, T: rt.T}}
+	})
+	reg("(reflect.Value).MethodByName", func(ex *Exec, st *State, instr ssa.Instruction, args []Value) Value {
+		v := ex.rv(args[0])
+		name, ok := ex.strLitContent(args[1].(*Term))
+		if !ok {
+			ex.unsupported("MethodByName with a non-constant name")
+		}
+		ms := ex.Prog.MethodSets.MethodSet(v.T)
+		var sel *types.Selection
+		for i := 0; i < ms.Len(); i++ {
+			if ms.At(i).Obj().Name() == name && ms.At(i).Obj().Exported() {
+				sel = ms.At(i)
+			}
+		}
+		if sel == nil {
+			return &VReflect{}
+		}
+		return &VReflect{T: sel.Type(), Method: name, Recv: v}
+	})
+	reg("(reflect.Value).Call", func(ex *Exec, st *State, instr ssa.Instruction, args []Value) Value {
+		v := ex.rv(args[0])
+		if v.T == nil || v.Method == "" {
+			ex.oblige(st, "panic", "panic@reflect.Call", False, instr.Pos(), "reflect: call of Call on zero Value")
+			ex.unsupported("Call on zero Value")
+		}
+		in := args[1].(*VSlice)
+		if n, ok := in.Len.Int64(); !ok || n != 0 {
+			ex.unsupported("reflect Call with arguments")
+		}
+		recvT := v.Recv.T
+		sel := ex.Prog.MethodSets.MethodSet(recvT).Lookup(nil, v.Method)
+		if sel == nil {
+			ex.unsupported("method %s not found on %s", v.Method, recvT)
+		}
+		fn := ex.Prog.MethodValue(sel)
+		mdl, ok := libModels[calleeName(fn)]
+		if !ok {
+			ex.unsupported("reflect call of %s: no model", calleeName(fn))
+		}
+		ex.cur.libCalls[calleeName(fn)] = true
+		res := mdl(ex, st, instr, []Value{ex.rvGet(st, v.Recv, instr)})
+		sig := sel.Type().(*types.Signature)
+		var outs []Value
+		switch sig.Results().Len() {
+		case 0:
+		case 1:
+			outs = []Value{res}
+		default:
+			outs = res.(*VTuple).Vals
+		}
+		rvt := ex.lookupNamed("reflect.Value")
+		ref := ex.allocRow(st, rvt)
+		for i, o := range outs {
+			ex.heapStore(st, rvt, ref, IntLit(int64(i)), &VReflect{T: sig.Results().At(i).Type(), Val: o})
+		}
+		n := IntLit(int64(len(outs)))
+		return &VSlice{Ref: ref, Off: IntLit(0), Len: n, Cap: n, Elem: rvt}
+	})
+	reg("(reflect.StructTag).Get", func(ex *Exec, st *State, instr ssa.Instruction, args []Value) Value {
+		tag, ok1 := ex.strLitContent(args[0].(*Term))
+		key, ok2 := ex.strLitContent(args[1].(*Term))
+		if !ok1 || !ok2 {
+			ex.unsupported("StructTag.Get on symbolic strings")
+		}
+		return ex.strLit(reflect.StructTag(tag).Get(key))
+	})
+}
+
+// rtypeMethod: methods of the reflect.Type interface on a known type.
+func (ex *Exec) rtypeMethod(st *State, instr ssa.Instruction, rt *VRType, name string, args []Value) Value {
+	switch name {
+	case "Kind":
+		return IntLit(kindOf(rt.T))
+	case "Elem":
+		switch u := rt.T.Underlying().(type) {
+		case *types.Pointer:
+			return &VRType{T: u.Elem()}
+		case *types.Slice:
+			return &VRType{T: u.Elem()}
+		case *types.Array:
+			return &VRType{T: u.Elem()}
+		case *types.Map:
+			return &VRType{T: u.Elem()}
+		}
+		ex.oblige(st, "panic", "panic@reflect.Type.Elem", False, instr.Pos(), "reflect: Elem of invalid type")
+		ex.unsupported("Type.Elem of %s", rt.T)
+	case "NumField":
+		if s, ok := rt.T.Underlying().(*types.Struct); ok {
+			return IntLit(int64(s.NumFields()))
+		}
+	case "Field":
+		i, ok := args[0].(*Term).Int64()
+		s, isStruct := rt.T.Underlying().(*types.Struct)
+		if ok && isStruct && i >= 0 && int(i) < s.NumFields() {
+			return ex.structFieldValue(st, rt.T, int(i))
+		}
+		ex.unsupported("Type.Field(%v) of %s", args[0], rt.T)
+	case "String", "Name":
+		return ex.strLit(types.TypeString(rt.T, func(p *types.Package) string { return p.Name() }))
+	}
+	ex.unsupported("reflect.Type.%s", name)
+	return nil
+}
